@@ -235,7 +235,7 @@ def run(ctx):
     byid = {e["id"]: e for e in events}
     for i, clause in sorted(rej.items()):
         e = byid[i]
-        ctx.violation("resample/%s/%s/%s" % (e["ev"], e["api"], clause),
+        (ctx.growth if e["ev"] == "sync" else ctx.violation)("resample/%s/%s/%s" % (e["ev"], e["api"], clause),
                       "resample %s (%s) times(ticks) %s positions %s request %s -> %s %s: %s" %
                       ("temporal" if e["ev"] == "T" else "spatial", e["api"], e["T"], e["P"], e["d"] if e["kind"] == "step" else e["ref"],
                        e["out"], e.get("exc", ""), clause), e)
